@@ -290,6 +290,12 @@ class Engine:
             if vt.kind == "int":
                 vf = z3.Function(nm + ".val", ks, z3.IntSort())
                 val = lambda q: VInt(vf(q))
+            elif vt.kind == "fn":
+                vf = z3.Function(nm + ".val", ks, Fn)
+                val = lambda q: VFn(vf(q))
+            elif vt.kind == "label":
+                vf = z3.Function(nm + ".val", ks, Label)
+                val = lambda q: VLabel(vf(q))
             else:
                 raise Unsupported("fresh dict with values %r" % (vt,))
             keys = self.fresh(T.list(kt), base + ".keys", st) if ordered else None
